@@ -128,7 +128,7 @@ theorem C20_err_probabilities (mr mc sr sc : Nat) (means zs us : List Rat) :
 /-- C12 (weather part): coefficients drawn from a distribution always lie in [0,1]: the normal
     draw is kept only inside the range, otherwise the uniform draw from [0,1) is used. -/
 theorem C12_weather_range (mr mc sr sc : Nat) (means zs us out : List Rat)
-    (hu : ∀ k : Nat, 0 ≤ us[k]! ∧ us[k]! ≤ 1)
+    (hu : ∀ k : Nat, k < means.length → 0 ≤ us[k]! ∧ us[k]! ≤ 1)
     (h : updateWeatherFromDistribution mr mc sr sc means zs us = .ok out) :
     out.length = means.length ∧ ∀ x ∈ out, 0 ≤ x ∧ x ≤ 1 := by
   unfold updateWeatherFromDistribution at h
@@ -140,10 +140,10 @@ theorem C12_weather_range (mr mc sr sc : Nat) (means zs us out : List Rat)
   refine ⟨by simp, ?_⟩
   intro x hx
   simp only [List.mem_map, List.mem_range] at hx
-  obtain ⟨k, _, rfl⟩ := hx
+  obtain ⟨k, hk, rfl⟩ := hx
   unfold normalWithFallback
   split
-  · exact hu k
+  · exact hu k hk
   · rename_i hz
     have : ¬ zs[k]! < 0 ∧ ¬ zs[k]! > 1 := by
       constructor
@@ -191,10 +191,11 @@ example : updateWeatherFromDistribution 1 2 1 2 [1, 0] (weatherZs [1, 0] [0, 3] 
 /-- Index safety of the landscape algorithms: a cell that passes the outside test has an index
     inside the raster buffers, for every raster shape (single cell, single row, single column,
     rows ≠ cols) and however far outside the kernel throws a disperser. -/
-theorem C20_index_in_range (g : Grid) (r c : Int) (hr : 0 ≤ g.rows) (hc : 0 ≤ g.cols)
+theorem C20_index_in_range (g : Grid) (r c : Int)
     (h : g.isOutside r c = false) : (g.idx r c : Int) < g.rows * g.cols ∧ 0 ≤ r * g.cols + c := by
   simp only [Grid.isOutside, Bool.or_eq_false_iff, decide_eq_false_iff_not, Int.not_lt, ge_iff_le, Int.not_le] at h
   obtain ⟨⟨⟨h1, h2⟩, h3⟩, h4⟩ := h
+  have hc : 0 ≤ g.cols := by omega
   have hnn : 0 ≤ r * g.cols := Int.mul_nonneg h1 hc
   have hle : r * g.cols + g.cols ≤ g.rows * g.cols := by
     have : (r + 1) * g.cols ≤ g.rows * g.cols := Int.mul_le_mul_of_nonneg_right (by omega) hc
